@@ -137,7 +137,7 @@ def run(ctx):
             s_ = treemod.impl_summary(d)
             stats["orbit_divergent"] += int(bool(s_.get("div")))
             stats["orbit_errors"] += int(bool(s_.get("err")))
-            if treemod.ambiguous(m):
+            if treemod.ambiguous(m, d):
                 continue
             diffs = treemod.compare_draw(c, d, m)
             if "panic" in s_:
